@@ -79,11 +79,13 @@ def _serialize_element(
         json_name = lambda name, prop: (
             name if prop.source is None else prop.source
         )
-        schema["required"] = [
+        required = list(schema.get("required") or [])
+        required.extend(
             json_name(name, prop)
             for name, prop in schema["properties"].items()
-            if prop.required
-        ]
+            if prop.required and json_name(name, prop) not in required
+        )
+        schema["required"] = required
         schema["properties"] = {
             json_name(name, prop): prop
             for name, prop in schema["properties"].items()
